@@ -13,7 +13,8 @@ LEVEL_TEXT = (
     'terminates; the extracted model contains the closure of the focus with identical contents and nothing else; '
     'every focused address evaluates as in the original, also after the same set_cell_value calls on both. The '
     'model is tied to the running code by a differential run over generated acyclic workbooks with every '
-    'non-empty focus subset: models compiled from dictionaries and from .xlsx files (sheet titles that need '
+    'non-empty focus subset and over range geometries (identical, nested, crossing, overlapping, adjacent, '
+    'disjoint ranges in one formula and across formulas): models compiled from dictionaries and from .xlsx files (sheet titles that need '
     'quoting, defined names given as the raw workbook text with $), originals that were not / partly / fully '
     'evaluated before the extraction with error, text, boolean, float, date and array values stored in the '
     'closure, and both orders of evaluating the two models.')
@@ -50,7 +51,8 @@ ASSUMPTIONS = [
 ]
 
 SHEETS = ['Sheet1', 'S2', 'My Sheet', "Bob's", 'P&L $']
-COLS = 'ABC'
+COLS = 'ABC'               # columns of the grid the dependency-shape families draw their cells from
+ALLCOLS = 'ABCDEFGH'       # columns an address may have (the range-geometry family uses a 5 x 5 block + column G)
 XLSX_SHARE = 0.08      # share of generated workbooks compiled through an .xlsx file
 
 
@@ -216,10 +218,10 @@ def box(a, b):
     """the range key and the member addresses of the bounding box of two addresses of one sheet"""
     s, x = a.rsplit('!', 1)
     _, y = b.rsplit('!', 1)
-    c0, c1 = sorted([COLS.index(x[0]), COLS.index(y[0])])
+    c0, c1 = sorted([ALLCOLS.index(x[0]), ALLCOLS.index(y[0])])
     r0, r1 = sorted([int(x[1:]), int(y[1:])])
-    members = [f'{s}!{COLS[c]}{r}' for r in range(r0, r1 + 1) for c in range(c0, c1 + 1)]
-    return f'{s}!{COLS[c0]}{r0}:{COLS[c1]}{r1}', members
+    members = [f'{s}!{ALLCOLS[c]}{r}' for r in range(r0, r1 + 1) for c in range(c0, c1 + 1)]
+    return f'{s}!{ALLCOLS[c0]}{r0}:{ALLCOLS[c1]}{r1}', members
 
 
 def gen_fx(rng, earlier, ranges, names, depth):
@@ -381,6 +383,114 @@ def gen_rich(rng, ncells):
     return wb
 
 
+GEOMETRIES = ['identical', 'nested', 'crossing', 'overlapping', 'adjacent', 'disjoint']
+
+
+def relation(p, q):
+    """how two rectangles (c0, r0, c1, r1) of one sheet lie to each other"""
+    if p == q:
+        return 'identical'
+    ic0, ir0, ic1, ir1 = max(p[0], q[0]), max(p[1], q[1]), min(p[2], q[2]), min(p[3], q[3])
+    inside = lambda a, b: b[0] <= a[0] and b[1] <= a[1] and a[2] <= b[2] and a[3] <= b[3]  # noqa: E731
+    if ic0 <= ic1 and ir0 <= ir1:
+        if inside(p, q) or inside(q, p):
+            return 'nested'
+        cols_p_in_q = q[0] <= p[0] and p[2] <= q[2]
+        cols_q_in_p = p[0] <= q[0] and q[2] <= p[2]
+        rows_p_in_q = q[1] <= p[1] and p[3] <= q[3]
+        rows_q_in_p = p[1] <= q[1] and q[3] <= p[3]
+        if (cols_p_in_q and rows_q_in_p) or (cols_q_in_p and rows_p_in_q):
+            return 'crossing'
+        return 'overlapping'
+    touch_cols = (ic0 == ic1 + 1) and ir0 <= ir1
+    touch_rows = (ir0 == ir1 + 1) and ic0 <= ic1
+    return 'adjacent' if touch_cols or touch_rows else 'disjoint'
+
+
+def gen_geo(rng):
+    """range geometries: a 5 x 5 block of input cells (some of them empty cells of the sheet) and formula
+    cells outside it that add up two or three ranges of the block — rows, columns and blocks that are
+    identical, nested, crossing, overlapping, adjacent or disjoint — in one formula (both orders, as separate
+    SUMs and as arguments of one SUM) or across formulas, so that cells are reachable through one range only"""
+    sheet = rng.choice(SHEETS)
+    out = sheet if rng.random() < 0.6 else rng.choice([t for t in SHEETS if t != sheet])
+    n = 5
+
+    def rect():
+        kind = rng.choice(['row', 'col', 'block', 'block', 'cell-ish'])
+        c0, r0 = rng.randrange(n), rng.randrange(n)
+        if kind == 'row':
+            return (c0, r0, rng.randrange(c0, n), r0) if rng.random() < 0.7 else (0, r0, n - 1, r0)
+        if kind == 'col':
+            return (c0, r0, c0, rng.randrange(r0, n)) if rng.random() < 0.7 else (c0, 0, c0, n - 1)
+        return (c0, r0, rng.randrange(c0, n), rng.randrange(r0, n))
+
+    def key(p):
+        return box(f'{sheet}!{ALLCOLS[p[0]]}{p[1] + 1}', f'{sheet}!{ALLCOLS[p[2]]}{p[3] + 1}')[0]
+
+    want = rng.choice(GEOMETRIES)
+    for _ in range(300):
+        p, q = rect(), rect()
+        if (p[0], p[1]) != (p[2], p[3]) and (q[0], q[1]) != (q[2], q[3]) and relation(p, q) == want:
+            break
+    else:
+        p, q = (0, 0, 2, 0), (1, 0, 1, 2)
+    rects = [p, q]
+    if rng.random() < 0.3:
+        for _ in range(50):
+            t = rect()
+            if (t[0], t[1]) != (t[2], t[3]):
+                rects.append(t)
+                break
+    wb = {'cells': {}, 'names': {}, 'rnames': {}, 'route': 'xlsx' if rng.random() < XLSX_SHARE / 2 else 'dict',
+          'raw': {'abs': rng.random() < 0.8, 'quote_all': rng.random() < 0.2},
+          'geometry': relation(p, q)}
+    fill = rng.choice([0.5, 0.8, 1.0])
+    for r in range(n):
+        for c in range(n):
+            if rng.random() < fill:
+                wb['cells'][f'{sheet}!{ALLCOLS[c]}{r + 1}'] = rng.randint(-9, 20)
+    if not wb['cells']:
+        wb['cells'][f'{sheet}!A1'] = 1
+    keys = [key(t) for t in rects]
+    if rng.random() < 0.25:
+        wb['rnames']['rn1'] = keys[0]
+    if rng.random() < 0.25:
+        wb['rnames']['rn2'] = keys[1]
+    operands = [('rng', next((nm for nm, k0 in wb['rnames'].items() if k0 == k and rng.random() < 0.7), k))
+                for k in keys]
+    if rng.random() < 0.5:
+        operands.reverse()
+    sm = lambda xs: ('app', 4, list(xs))  # noqa: E731
+    add = lambda a, b: ('app', 0, [a, b])  # noqa: E731
+    g = [f'{out}!G{i}' for i in (1, 2, 3, 4)]
+    style = rng.choice(['one-sum', 'sums', 'across', 'across'])
+    if style == 'one-sum' and len(operands) == 2:
+        wb['cells'][g[0]] = ('f', sm(operands))
+    elif style in ('one-sum', 'sums'):
+        fx = sm([operands[0]])
+        for o in operands[1:]:
+            fx = add(fx, sm([o]))
+        wb['cells'][g[0]] = ('f', fx)
+    else:
+        for i, o in enumerate(operands):
+            wb['cells'][g[i]] = ('f', sm([o]))
+        parts = [('ref', g[i]) for i in range(len(operands))]
+        if rng.random() < 0.5:
+            parts.reverse()
+        fx = parts[0]
+        for o in parts[1:]:
+            fx = add(fx, o)
+        wb['cells'][g[3]] = ('f', fx)
+    return wb
+
+
+def geo_focus_items(wb):
+    """the formula cells and the names; plus two input cells"""
+    f = [a for a, c in wb['cells'].items() if isinstance(c, tuple)]
+    return f + list(wb.get('rnames', {}))
+
+
 def hand_made():
     """the shapes the tests never extract (the witnesses of repaired findings live in corpus/C13)"""
     S = 'Sheet1!'
@@ -533,6 +643,10 @@ def run_real(case):
 
 def gen_sets(rng, wb, focus, model_cells=None):
     inputs = [a for a, c in wb['cells'].items() if not isinstance(c, tuple)]
+    if wb.get('geometry'):
+        # also the empty cells of the block (placeholders inside a range, or new cells in both models)
+        sheet = sheet_of(inputs[0])
+        inputs = [f'{sheet}!{ALLCOLS[c]}{r}' for c in range(5) for r in range(1, 6)]
     sets = []
     for _ in range(rng.randint(1, 3)):
         r = rng.random()
@@ -600,6 +714,16 @@ def gen_cases(ctx):
         for _ in range(6 if thorough else 4):
             k = rng.choice([1, 1, 2, 3, rng.randint(1, len(items))])
             add(wb, rng.sample(items, k), 'large-sampled')
+    # range geometries: every non-empty focus subset of the formula cells and names
+    ngeo = 5000 if thorough else 260
+    for i in range(ngeo):
+        wb = gen_geo(rng)
+        items = geo_focus_items(wb)
+        subs = [sub for k in range(1, len(items) + 1) for sub in itertools.combinations(items, k)]
+        if wb['route'] == 'xlsx' or len(subs) > 7:
+            subs = rng.sample(subs, min(len(subs), 3))
+        for sub in subs:
+            add(wb, sub, 'geometry:' + wb['geometry'])
     # the rich family: wider function set, values of every kind stored by an evaluation before the extraction
     nrich = 6000 if thorough else 300
     for i in range(nrich):
@@ -657,7 +781,9 @@ def run(ctx):
                 'apostrophe, & and $) with ranges, cell names and range names given as raw workbook text (quoted, '
                 '$-absolute), compiled from a dictionary or from an .xlsx file (hand-made shapes + corpus + '
                 'generated); every non-empty focus subset of cells and names for models of <= 6 cells, sampled '
-                'subsets for 7-18 cells; originals not / partly / fully evaluated before the extraction (error, '
+                'subsets for 7-18 cells; a range-geometry family (two or three rows / columns / blocks of a 5 x 5 '
+                'block that are identical, nested, crossing, overlapping, adjacent or disjoint, in one formula in '
+                'both orders or across formulas, with empty cells and cells reachable through one range only); originals not / partly / fully evaluated before the extraction (error, '
                 'text, boolean, float, date, array values stored in the closure); 1-3 random set_cell_value on '
                 'input cells applied to both models, extract or original evaluated first; real extract vs real '
                 'original (values before/after the changes, original unchanged by deep comparison, closure '
@@ -726,7 +852,7 @@ def wb_of_json(a):
         return tuplify(v)
     wb = {'cells': {k: cell(v) for k, v in a['cells'].items()}, 'names': a.get('names', {}),
           'rnames': a.get('rnames', {})}
-    for k in ('route', 'raw'):
+    for k in ('route', 'raw', 'geometry'):
         if k in a:
             wb[k] = a[k]
     return wb
